@@ -105,6 +105,11 @@ func (c *Conversation) shouldRetransmit() bool {
 }
 
 func (c *Conversation) maybeRetransmit() ([]messageWithHeader, error) {
+	if c.msgState != encrypted {
+		// nothing can be sent yet: keep the queue until the key exchange has completed
+		return nil, nil
+	}
+
 	if !c.shouldRetransmit() {
 		return nil, nil
 	}
